@@ -904,6 +904,7 @@ class Analysis:
         recs = {t[1] for t in toks if t != "ALL" and t[0] == "rec"}
         derefs = {t[1] for t in toks if t != "ALL" and t[0] == "deref"}
         globs = {"g:" + t[1] for t in toks if t != "ALL" and t[0] == "glob"}
+        bytesw = ("bytes",) in toks
         out = None
         for k in st:
             if k == keep:
@@ -923,6 +924,9 @@ class Analysis:
             elif globs and (m.refs & globs):
                 dead = True
             elif (allw or derefs) and (m.refs & self.taken):
+                dead = True
+            elif bytesw and (m.derefs or (m.trange is not None and None not in m.trange and m.trange[1] - m.trange[0] <= 255)
+                             or (m.refs & self.taken)):
                 dead = True
             if dead:
                 if out is None:
@@ -1472,6 +1476,24 @@ class Analysis:
                 if s is None:
                     return None
             return s
+        # the unsigned range-check idiom  `x - c < K`  (x unsigned, c > 0):  c <= x < K + c
+        if op in ("<", "<=") and b is not None:
+            ja = ex.skip(f, a)
+            ea_ = f.exprs[ja]
+            K = self.eval(st, b)
+            if ea_["k"] == "bin" and ea_["op"] == "-" and ea_.get("it") and not ea_["it"][1] and K[1] is not None and K[1] >= 0:
+                c = ex.const(f, ea_["c"][1])
+                xk = self._refinable(ea_["c"][0])
+                if c is not None and c > 0 and xk is not None:
+                    xv = self.eval(st, ea_["c"][0])
+                    hi = K[1] + c - (1 if op == "<" else 0)
+                    if hi < (1 << ea_["it"][0]) - 1 and xv[0] is not None and xv[0] >= 0:
+                        nv = meet(xv, (c, hi))
+                        if is_empty(nv):
+                            return None
+                        out = dict(st)
+                        out[xk] = nv
+                        return out
         ka, oa, va = self._linear(st, a)
         kb, ob, vb = self._linear(st, b)
         na, nb = _refine(op, va, vb)
